@@ -80,6 +80,21 @@ def programs(tier, seed):
         t3 = A(st, [3])
         ps.append(("%s_%s" % (cname, st), prog([inp(t3), inp(t3), nd("A2B", [1]), nd("A2B", [2]),
                                                {"op": "CustomNamed", "cname": cname, "signed": sg, "deps": [3, 4]}]), [t3, t3]))
+    # library custom operations on bit strings, through the whole pipeline: clip, adder, multiplexer, long division, not / or
+    def cn(name, deps, **kw):
+        d = {"op": "CustomNamed", "cname": name, "deps": deps}
+        d.update(kw)
+        return d
+    t2 = A("i32", [2])
+    ps.append(("clip2k_i32", prog([inp(t2), inp(t2), nd("Add", [1, 2]), nd("A2B", [3]), cn("Clip2K", [4], k=5), nd("B2A", [5], st="i32")]), [t2, t2]))
+    ps.append(("binary_add_u8", prog([inp(A("u8", [3])), inp(A("u8", [3])), nd("A2B", [1]), nd("A2B", [2]), cn("BinaryAdd", [3, 4], overflow=False), nd("B2A", [5], st="u8")]),
+               [A("u8", [3]), A("u8", [3])]))
+    ps.append(("mux_i32", prog([inp(A("b", [3])), inp(A("i32", [3])), inp(A("i32", [3])), cn("Mux", [1, 2, 3])]), [A("b", [3]), A("i32", [3]), A("i32", [3])]))
+    ps.append(("mux_bits", prog([inp(A("b", [3, 1])), inp(A("b", [3, 4])), inp(A("b", [4])), cn("Mux", [1, 2, 3])]), [A("b", [3, 1]), A("b", [3, 4]), A("b", [4])]))
+    ps.append(("not_or_bits", prog([inp(A("b", [4])), inp(A("b", [4])), cn("Not", [1]), cn("Or", [3, 2])]), [A("b", [4]), A("b", [4])]))
+    for sg, st in ((True, "i8"), (False, "u8")):
+        t1 = A(st, [2])
+        ps.append(("long_division_%s" % st, prog([inp(t1), inp(t1), nd("A2B", [1]), nd("A2B", [2]), cn("LongDivision", [3, 4], signed=sg)]), [t1, t1]))
     # sorting and permutations
     kt, vt = A("b", [4, 3]), A("i64", [4])
     ps.append(("sort_bits", prog([inp(kt), inp(vt), nd("CreateNamedTuple", [1, 2], nm=["k", "v"]), nd("Sort", [3], key="k")]), [kt, vt]))
@@ -141,8 +156,11 @@ def jobs(tier, seed):
         for oi, ow in enumerate(owners_list):
             outs = OUT_SETS[(oi + len(name)) % len(OUT_SETS)]
             jid += 1
+            vals = [rand_value(t, rng) for t in its]
+            if name.startswith("long_division"):
+                vals[1] = [v if int(v) != 0 else "3" for v in vals[1]]      # the property speaks of non-zero divisors
             js.append({"id": jid, "name": name, "family": "core", "prog": p, "owners": ow, "outs": outs, "mode": ["Simple", "Default", "Extreme"][oi % 3],
-                       "inputs": [rand_value(t, rng) for t in its], "seeds": [seed % 1000 + s for s in range(nseeds)], "junk": junk})
+                       "inputs": vals, "seeds": [seed % 1000 + s for s in range(nseeds)], "junk": junk})
     for name, p, its in iterate_programs():
         for oi, (ow, outs) in enumerate((([0, 1], [2]), ([1, 2], []), (["pub", 0], [0, 1]))):
             for mode in ("Simple", "Default", "Extreme"):
